@@ -444,7 +444,7 @@ Print Assumptions C01_partial_strict2.
 (* Scheme-less references against a `related` base that is neither special nor opaque: the Standard's
    no scheme -> relative -> relative slash / path states against parse_relative of parser.rs.
    New files Proofs/C01_EqRel.v, C01_EqRelPath.v, C01_EqRelArms.v; nothing above is changed. *)
-From RU Require Import Proofs.C02_Parts Proofs.C02_Path Proofs.C01_EqRel Proofs.C01_EqRelPath Proofs.C01_EqRelArms.
+From RU Require Import Proofs.C02_Parts Proofs.C02_Path Proofs.C01_EqRel Proofs.C01_EqRelPath Proofs.C01_EqRelArms Proofs.C01_EqRelBase.
 
 (* ---------- the Standard's side alone (any host parser) ---------- *)
 (* "//T": the relative slash state hands over to the authority state with only the scheme of the base *)
@@ -620,3 +620,22 @@ Proof.
   split; [unfold host_agree; vm_compute; repeat split; try reflexivity; intros H; discriminate H|].
   vm_compute. repeat split.
 Qed.
+
+(* ---------- the side condition spec_base_ok is met by the records the proved classes return ---------- *)
+(* so the classes chain: a base parsed by C01_eq_pathonly / C01_eq_authority, or resolved by any of the
+   three relative classes, or edited by the '#' / '?' / empty reference classes, is a base of the
+   relative classes again (`related` comes from the class theorems themselves) *)
+Theorem C01_rel_base_ok : forall shp,
+  (forall input su, usv_list input -> in_class_pathonly input = true ->
+     spec_basic_url_parse shp input None = BDone su -> spec_base_ok su = true)
+  /\ (forall input su, in_class_authority input = true ->
+        spec_basic_url_parse shp input None = BDone su -> spec_base_ok su = true)
+  /\ (forall input sb su, scheme_canon (su_scheme sb) = true -> in_class_rel_authority sb input = true ->
+        spec_basic_url_parse shp input (Some sb) = BDone su -> spec_base_ok su = true)
+  /\ (forall u f, spec_base_ok (Whatwg.set_fragment u f) = spec_base_ok u)
+  /\ (forall u q, spec_base_ok (Whatwg.set_query u q) = spec_base_ok u).
+Proof.
+  intros shp. split; [exact (pathonly_result_ok shp)|]. split; [exact (authority_result_ok shp)|].
+  split; [exact (rel_authority_result_ok shp)|]. split; [exact base_ok_set_fragment | exact base_ok_set_query].
+Qed.
+Print Assumptions C01_rel_base_ok.
